@@ -51,7 +51,10 @@ def dijkstra(adj, w, start, goal):
 def lattices(ctx, rng):
     quick = ctx.tier == "quick"
     out = [("honey2", eg.honeycomb_lattice(2)), ("honey3", eg.honeycomb_lattice(3)), ("hso2", eg.hex_square_oct_lattice(2)), ("square33", eg.square_lattice(3, 3)),
-           ("trinon2", eg.tri_non_lattice(2)), ("tutte", eg.tutte_graph()), ("ladder6w", eg.n_ladder(6, True))]
+           ("trinon2", eg.tri_non_lattice(2)), ("tutte", eg.tutte_graph()), ("ladder6w", eg.n_ladder(6, True)),
+           # few plaquettes / open cuts (the budget n_edges is tight), and pairs of vertices joined by two edges (a periodic direction only two vertices wide)
+           ("square22-open", cut_boundaries(eg.square_lattice(2, 2))), ("square23-open", cut_boundaries(eg.square_lattice(2, 3))), ("square24", eg.square_lattice(2, 4)),
+           ("square25-x", cut_boundaries(eg.square_lattice(2, 5), [False, True])), ("square32-y", cut_boundaries(eg.square_lattice(3, 2), [True, False])), ("honey2-x", cut_boundaries(eg.honeycomb_lattice(2), [True, False]))]
     for N in ([9, 12, 20, 40] if quick else [9, 10, 12, 16, 25, 40, 70, 120, 200, 400]):
         l = zoo.voronoi(rng, N)
         out.append((f"vor{N}", l)); out.append((f"vor{N}-x", cut_boundaries(l, [True, False]))); out.append((f"vor{N}-xy", cut_boundaries(l)))
@@ -95,14 +98,17 @@ def run(ctx):
             F = l.n_plaquettes
         except Exception:
             continue
-        if F < 2 or not plaquette_graph_connected(l):
-            ctx.count("precondition_excluded_disconnected_plaquette_graph"); continue
+        plaq_ok = F >= 2 and plaquette_graph_connected(l)
+        if not plaq_ok:
+            ctx.count("precondition_excluded_disconnected_plaquette_graph")          # vertex paths are still judged
         ctx.count("lattices")
         lat_fp = core.lattice_fingerprint(l)
         for kind in ("plaquette", "vertex", "@fingerprint"):
             if kind == "@fingerprint":
                 if core.lattice_fingerprint(l) != lat_fp:
                     ctx.impl_violation(f"{name}: the path finder modified the lattice it was given (positions / edges / crossings / plaquette data)", dict(case=name, lattice=zoo.lat_to_json(l)))
+                continue
+            if kind == "plaquette" and not plaq_ok:
                 continue
             if kind == "plaquette":
                 n = F
@@ -118,6 +124,14 @@ def run(ctx):
                 if not provider_ok:
                     ctx.count("adjacency_provider_differs_from_edge_table")
                     adj = adj_ref
+                # what the adjacency provider hands out belongs to the caller: scramble it in place, the path finder must not notice
+                try:
+                    for p_ in range(n):
+                        nb_, ed_ = gu.adjacent_plaquettes(l, p_)
+                        if isinstance(nb_, np.ndarray) and nb_.ndim == 1 and nb_.flags.writeable: nb_.sort()
+                        if isinstance(ed_, np.ndarray) and ed_.ndim == 1 and ed_.flags.writeable: ed_[:] = ed_[::-1].copy()
+                except Exception:
+                    pass
                 centres = np.array([p.center for p in l.plaquettes])
                 pos = lambda i: centres[i]
                 finder = pf.path_between_plaquettes
@@ -135,7 +149,7 @@ def run(ctx):
                 pos = lambda i: l.vertices.positions[i]
                 finder = pf.path_between_vertices
             for mname, metric in (("euclid", pf.straight_line_length), ("periodic", pf.periodic_straight_line_length)):
-                if n <= 9:
+                if n <= 9 or (n <= 20 and mname == "euclid"):
                     pairs = [(a, b) for a in range(n) for b in range(n)]
                 else:
                     pairs = [tuple(int(x) for x in rng.integers(0, n, size=2)) for _ in range(10 if quick else 40)] + [(0, 0), (n - 1, n - 1), (0, n - 1)]
